@@ -35,11 +35,15 @@ fn sizes(emu: u8) -> BoxedStrategy<(u8, u8)> {
 }
 
 fn cases(max_tokens: usize) -> BoxedStrategy<Case> {
+    cases_capped(max_tokens, 9999)
+}
+
+fn cases_capped(max_tokens: usize, maxnum: u32) -> BoxedStrategy<Case> {
     // a union over the emulations (no flat_map on generated values: the token list shrinks directly)
     let per_emu: Vec<BoxedStrategy<Case>> = (0..EMUS.len() as u8)
         .map(|emu| {
             (0u8..=2, sizes(emu), stream::tokens(emu, true, max_tokens))
-                .prop_map(move |(shape, (w, h), toks)| Case { emu, w, h, shape, data: Bytes(stream::render(&toks, w as i32, h as i32, 9999)) })
+                .prop_map(move |(shape, (w, h), toks)| Case { emu, w, h, shape, data: Bytes(stream::render(&toks, w as i32, h as i32, maxnum)) })
                 .boxed()
         })
         .collect();
@@ -101,6 +105,142 @@ fn check(c: &Case) -> Verdict {
     Verdict::pass(nontrivial, format!("{}{}", EMUS[c.emu as usize], if errs > 0 { "+err" } else { "" }))
 }
 
+// ------------------------------------------------------------------------------------------ large numbers
+// Every control function with parameters up to 2^31-1 on four screen states. With overflow checks on, arithmetic on such a
+// parameter (caret row + Pn, Pn * width ...) panics where a release build wraps; the generated streams above stop at 9999.
+
+const BIG_VALUES: [u32; 8] = [0, 1, 0xFFFF_FFFE /* screen size */, 1 << 16, 1_000_000, 0x4000_0000, 2_147_483_599, 2_147_483_647];
+const BIG_INTERS: [&str; 8] = ["", " ", "$", "*", "?", "=", "!", "<"];
+const BIG_PREFIXES: u64 = 4;
+
+fn big_lists() -> Vec<Vec<u32>> {
+    let mut out: Vec<Vec<u32>> = vec![vec![]];
+    for a in BIG_VALUES {
+        out.push(vec![a]);
+        for b in BIG_VALUES {
+            out.push(vec![a, b]);
+        }
+    }
+    for k in 3..=5usize {
+        for pos in 0..k {
+            for l in [1u32 << 16, 2_147_483_599, 2_147_483_647] {
+                for fill in [1u32, 0xFFFF_FFFE] {
+                    let mut v = vec![fill; k - 1];
+                    v.insert(pos, l);
+                    out.push(v);
+                }
+            }
+        }
+    }
+    out
+}
+
+fn big_prefix(p: u64) -> Vec<u8> {
+    match p {
+        1 => {
+            // full screen, 100 lines of scrollback, margins set, cursor inside
+            let mut v = Vec::new();
+            for i in 0..125 {
+                v.extend_from_slice(format!("line {i} ").as_bytes());
+                v.extend(std::iter::repeat(b'#').take(60));
+                v.extend_from_slice(b"\r\n");
+            }
+            v.extend_from_slice(b"\x1b[5;20r\x1b[10;10H");
+            v
+        }
+        2 => b"\x1b[3;3HX".to_vec(),
+        // scrollback only: the cursor sits in the last row of a tall buffer, column 0
+        3 => vec![b'\n'; 90],
+        _ => Vec::new(),
+    }
+}
+
+fn big_case(lists: &[Vec<u32>], idx: u64) -> Case {
+    let nl = lists.len() as u64;
+    let prefix = idx % BIG_PREFIXES;
+    let li = ((idx / BIG_PREFIXES) % nl) as usize;
+    let rest = idx / BIG_PREFIXES / nl;
+    let inter = BIG_INTERS[(rest % 8) as usize];
+    let fin = 0x40 + (rest / 8) as u8;
+    let mut v = big_prefix(prefix);
+    v.extend_from_slice(b"\x1b[");
+    let (pre, mid) = match inter {
+        "?" | "=" | "!" | "<" => (inter, ""),
+        o => ("", o),
+    };
+    v.extend_from_slice(pre.as_bytes());
+    for (i, p) in lists[li].iter().enumerate() {
+        if i > 0 {
+            v.push(b';');
+        }
+        let mut val = if *p == 0xFFFF_FFFE { if i % 2 == 0 { 25 } else { 80 } } else { *p };
+        if fin == b'b' && inter.is_empty() && i == 0 {
+            // REP prints Pn characters: its run time is C03's subject (open finding C03-rep-unbounded)
+            val = val.min(9999);
+        }
+        v.extend_from_slice(val.to_string().as_bytes());
+    }
+    v.extend_from_slice(mid.as_bytes());
+    v.push(fin);
+    // something after it: the state the sequence left behind is used once more
+    v.extend_from_slice(b"Z\r\n\x1b[A\x1b[2C!");
+    Case { emu: 0, w: 80, h: 25, shape: 1, data: Bytes(v) }
+}
+
+/// state-setting sequences with large numbers, each followed by every control function
+fn big_setters() -> Vec<String> {
+    let mut v = Vec::new();
+    for n in [1u32 << 16, 2_147_483_599, 2_147_483_647] {
+        v.push(format!("\x1b[1;{n}r"));
+        v.push(format!("\x1b[{n};{n}r"));
+        v.push(format!("\x1b[{n}r"));
+        v.push(format!("\x1b[?69h\x1b[1;{n}s"));
+        v.push(format!("\x1b[?69h\x1b[{n};{n}s"));
+        v.push(format!("\x1b[1;{n};1;{n}r"));
+        for k in 0..4 {
+            v.push(format!("\x1b[={k};{n}m"));
+        }
+        v.push(format!("\x1b[1;{n}r\x1b[?6h"));
+        v.push(format!("\x1b[{n}G\x1bH\x1b[1G"));
+        v.push(format!("\x1b[{n};{n}H"));
+        v.push(format!("\x1b[{n}B\x1b[{n}C\x1b[s"));
+        v.push(format!("\n\n\x1b[{n}e\x1b[{n}a"));
+        v.push(format!("\x1b[{n}d\x1b[{n}`"));
+        v.push(format!("\x1b[{n}I"));
+        v.push(format!("\x1b[0;{n} D"));
+    }
+    v
+}
+
+fn pair_case(setters: &[String], idx: u64) -> Case {
+    let ns = setters.len() as u64;
+    let si = (idx % ns) as usize;
+    let r = idx / ns;
+    let pv = r % 4;
+    let scroll = (r / 4) % 2 == 1;
+    let inter = BIG_INTERS[((r / 8) % 8) as usize];
+    let fin = 0x40 + (r / 64) as u8;
+    let mut v: Vec<u8> = if scroll { vec![b'\n'; 90] } else { Vec::new() };
+    v.extend_from_slice(setters[si].as_bytes());
+    v.extend_from_slice(b"\x1b[");
+    let (pre, mid) = match inter {
+        "?" | "=" | "!" | "<" => (inter, ""),
+        o => ("", o),
+    };
+    v.extend_from_slice(pre.as_bytes());
+    let rep = fin == b'b' && inter.is_empty();
+    match pv {
+        0 => {}
+        1 => v.extend_from_slice(b"1"),
+        2 => v.extend_from_slice(b"25"),
+        _ => v.extend_from_slice(if rep { b"9999" } else { b"2147483647" }),
+    }
+    v.extend_from_slice(mid.as_bytes());
+    v.push(fin);
+    v.extend_from_slice(b"Z\r\n\x1b[A\x1b[2C!\x1b[u?");
+    Case { emu: 0, w: 80, h: 25, shape: 1, data: Bytes(v) }
+}
+
 fn classify(c: &Case) -> String {
     if stream::has_macro_invoke(&c.data) {
         "macro_invocation".to_string()
@@ -115,11 +255,24 @@ fn main() {
         "Streams = token lists (printable runs, C0, ESC x, every CSI final 0x40..0x7E x intermediates x 0..7 parameters from {empty,0,1,2,mid,size,size+-1,255,9999,0..140}, \
          DCS macro/sixel/font payloads, OSC palette/hyperlinks, APS, ANSI music, per-emulation lead-ins) for 14 emulation configurations on terminal buffers \
          1..=132 x 1..=60 in three allocation shapes; every byte is fed through print_char in a worker process; Ok/Err accepted, panic/abort is a violation. \
+         big_numbers (exhaustive): 63 CSI finals x 8 intermediates x parameter lists over {0,1,size,2^16,10^6,2^30,2^31-49,2^31-1} (all lists of length <= 2; lengths 3..5 with one large position) x 4 screen states \
+         (fresh; full screen + 100 lines scrollback + margins; one printed char; cursor in the last row of a 90-line scrollback), ANSI emulation 80x25, followed by a printable, CR LF, CUU, CUF and a printable. \
+         big_pairs (exhaustive): 54 state-setting sequences carrying 2^16 / 2^31-49 / 2^31-1 (margins, scroll regions, origin mode, far tab stop, far cursor, saved cursor, font selection) x {fresh, 90-line scrollback} x \
+         63 finals x 8 intermediates x parameter {none, 1, 25, 2^31-1}, then the same tail plus restore-cursor. \
          Non-trivial: the stream contains >= 2 control lead-in bytes of its emulation AND touched the screen (row allocated, cursor moved or height grew); distinct by hash of (emulation,size,shape,bytes).",
     );
     eng.assume("built with overflow checks and debug assertions ON at opt-level 2 (profile `checked`): panics that only a debug build of a front end would hit count as well");
-    eng.assume("numeric parameters capped at 9999 here; magnitude-driven work is C03's subject; timeouts and heap-cap hits (2 GiB) are counted as inconclusive, not as violations (C03 owns time and memory)");
+    eng.assume("numeric parameters of the generated streams are capped at 9999 (magnitude-driven work is C03's subject); the big_numbers table carries the magnitudes, with REP's count capped at 9999 (C03's open finding); timeouts and heap-cap hits (2 GiB) are counted as inconclusive, not as violations (C03 owns time and memory)");
+    let lists = big_lists();
+    let total = 63 * 8 * lists.len() as u64 * BIG_PREFIXES;
+    eng.extra("big_numbers_rep_count_capped_at", icyv::serde_json::json!(9999));
+    eng.enumerated_with_class(PartCfg::new("big_numbers", 0, 0).isolated().timeout_ms(5_000).heapcap_is_violation(false).exhaustive(true), total, move |i| big_case(&lists, i), check, classify);
+    let setters = big_setters();
+    let total = setters.len() as u64 * 4 * 2 * 8 * 63;
+    eng.enumerated_with_class(PartCfg::new("big_pairs", 0, 0).isolated().timeout_ms(5_000).heapcap_is_violation(false).exhaustive(true), total, move |i| pair_case(&setters, i), check, classify);
     eng.generated_min(PartCfg::new("streams", 900_000, 12_000_000).isolated().timeout_ms(30_000).heapcap_is_violation(false), || cases(40), check, classify, minimize);
+    // the same grammar with the symbolic maximum rendered as 2^31-1 (short streams; a case that runs away is cut off after 3 s and is inconclusive)
+    eng.generated_min(PartCfg::new("big_streams", 200_000, 3_000_000).isolated().timeout_ms(3_000).heapcap_is_violation(false), || cases_capped(12, 2_147_483_647), check, classify, minimize);
     eng.generated_min(PartCfg::new("long_streams", 15_000, 300_000).isolated().timeout_ms(60_000).heapcap_is_violation(false), || cases(400), check, classify, minimize);
     eng.run();
 }
